@@ -123,13 +123,13 @@ enum Class {
 struct Prim {
     name: &'static str,
     class: Class,
-    /// decode then re-encode; None = rejected
-    dec: Box<dyn Fn(&[u8]) -> Option<Vec<u8>>>,
+    /// decode then re-encode; None = rejected by the decoder; Some(None) = accepted but the decoded value does not re-encode
+    dec: Box<dyn Fn(&[u8]) -> Option<Option<Vec<u8>>>>,
     valid: Vec<Vec<u8>>,
 }
 
 fn prim<T: Wire + 'static>(name: &'static str, class: Class) -> Prim {
-    Prim { name, class, dec: Box::new(|b: &[u8]| T::from_bin(b).ok().and_then(|v| v.to_bin().ok())), valid: Vec::new() }
+    Prim { name, class, dec: Box::new(|b: &[u8]| T::from_bin(b).ok().map(|v| v.to_bin().ok())), valid: Vec::new() }
 }
 
 fn push_unique(v: &mut Vec<Vec<u8>>, b: Vec<u8>, cap: usize) {
@@ -149,11 +149,11 @@ impl<'a> Sweep<'a> {
     fn canon(&mut self, prim: &Prim, input: &[u8], what: &str) -> Option<Violation> {
         self.decodes += 1;
         if let Some(re) = (prim.dec)(input) {
-            if re != input {
+            if re.as_deref() != Some(input) {
                 return Some(Violation::new(
                     "C12",
                     "C12.non_canonical_encoding_accepted",
-                    format!("{} [{}]: {} decodes, but re-encodes as {} ({what})", prim.name, self.rep.shape.split('|').next().unwrap_or(""), hexs(input), hexs(&re)),
+                    format!("{} [{}]: {} decodes, but re-encodes as {} ({what})", prim.name, self.rep.shape.split('|').next().unwrap_or(""), hexs(input), re.map(|r| hexs(&r)).unwrap_or_else(|| "<the decoded value cannot be encoded>".into())),
                 ));
             }
         }
@@ -170,7 +170,7 @@ impl<'a> Sweep<'a> {
         let l = e.len();
         // control
         self.decodes += 1;
-        if (prim.dec)(e).as_deref() != Some(e) {
+        if (prim.dec)(e).flatten().as_deref() != Some(e) {
             return Some(Violation::new("C12", "C12.round_trip_failed", format!("{}: valid encoding {} does not decode to itself", prim.name, hexs(e))));
         }
         let mut buf = e.to_vec();
@@ -398,7 +398,7 @@ fn exec_c<C: Suite>(scen: &Scenario) -> Exec {
         prim::<Delta<C>>("Delta", Class::Scalar),
         prim::<Sigma<C>>("Sigma", Class::Scalar),
         prim::<Randomizer<C>>("Randomizer", Class::Scalar),
-        Prim { name: "SigningKey", class: Class::Scalar, dec: Box::new(|b: &[u8]| SigningKey::<C>::deserialize(b).ok().map(|k| k.serialize())), valid: Vec::new() },
+        Prim { name: "SigningKey", class: Class::Scalar, dec: Box::new(|b: &[u8]| SigningKey::<C>::deserialize(b).ok().map(|k| Some(k.serialize()))), valid: Vec::new() },
         prim::<VerifyingShare<C>>("VerifyingShare", Class::Element),
         prim::<VerifyingKey<C>>("VerifyingKey", Class::Element),
         prim::<NonceCommitment<C>>("NonceCommitment", Class::Element),
